@@ -5,7 +5,7 @@ import hashlib, json, os, re, subprocess, sys, time, fcntl, shutil
 VERIF = os.path.dirname(os.path.dirname(os.path.abspath(__file__)))
 REPO = os.environ.get("CAT_REPO", "/repo")
 CACHE = os.path.join(VERIF, ".cache")
-LEAN = os.path.join(VERIF, "lean")
+LEAN = os.environ.get("VERIF_LEAN") or os.path.join(VERIF, "lean")
 CAPS = (1, 2, 3, 8)
 NPROC = os.cpu_count() or 4
 
